@@ -62,7 +62,7 @@ NOT_VERIFIED = ['lexing of BLT/STV text (strip, split, "#" comments, quotes, str
 UNPROVED = ['blt_parse_total (false of the current parser: witnesses proved; blt_parse_total_partial + blt_error_kinds hold)',
             'codec_save_or_faithful (false of the current codec: bare sets, reserved keys; witnesses proved)',
             'stv_roundtrip, stv_parse_total (STV format not modelled)']
-EXHAUSTIVE = {'thorough': False}
+EXHAUSTIVE = {'thorough': True}
 
 # ------------------------------------------------------------------------------------------------ guards
 def _g(fn, seconds=10):
@@ -886,18 +886,84 @@ def shrink_candidates(case):
                 yield c
 
 
+def _exhaustive_blt():
+    """small scope, complete: every document over <= 3 candidates (each withdrawn or not; Person objects), every set of <= 2 distinct
+    ballots out of all rankings without repetition of length <= 2 (incl. the empty ballot), weights from {1, 2, Decimal 1.5}, with /
+    without title, seats 1"""
+    for n in range(0, 4):
+        rankings = [list(p) for k in range(0, min(n, 2) + 1) for p in itertools.permutations(range(n), k)]
+        for wd in itertools.product([False, True], repeat=n):
+            cands = [[NAMES3[i], wd[i], 'person'] for i in range(n)]
+            for title in (None, 'T'):
+                for nb in range(0, 3):
+                    for bs in itertools.combinations(rankings, nb):
+                        for ws in itertools.product(EXH_WEIGHTS, repeat=nb):
+                            if nb == 2 and ws[0]['v'] == '2' and ws[1]['v'] == '2':
+                                continue
+                            doc = {'seats': 1, 'cands': cands, 'ballots': [[b, w] for b, w in zip(bs, ws)], 'title': title}
+                            yield {'op': 'blt_rt', 'doc': doc, '_tags': ['exhaustive_blt']}
+
+
+NAMES3 = ['Ann', 'J. Smith', 'Cy']
+EXH_WEIGHTS = [{'k': 'int', 'v': '1'}, {'k': 'int', 'v': '2'}, {'k': 'dec', 'v': '1.5'}]
+
+
+def _exhaustive_codec():
+    """small scope, complete: every value tree of depth <= 2 over a 6-atom / 2-number alphabet with containers of <= 2 children"""
+    leaves = [{'a': 'none'}, {'a': 'bool', 'v': True}, {'a': 'int', 'v': '0'}, {'a': 'int', 'v': '7'}, {'a': 'str', 'v': 'type'},
+              {'a': 'str', 'v': 'droop'}, {'t': 'frac', 'v': '7/5'}, {'t': 'dec', 'v': '0.05'},
+              {'t': 'callable', 'n': 'votelib.component.quota.droop', 'self': True}]
+
+    def level(kids):
+        out = []
+        for t in ('list', 'tuple', 'fset'):
+            out.append({'t': t, 'v': []})
+            for a in kids:
+                out.append({'t': t, 'v': [a]})
+            for a, b in itertools.permutations(kids, 2):
+                if t == 'fset' and (not CC.hashable_p(a) or not CC.hashable_p(b)):
+                    continue
+                out.append({'t': t, 'v': [a, b]})
+        for a in kids:
+            if t == 'fset' and not CC.hashable_p(a):
+                continue
+        for k in ({'a': 'str', 'v': 'k'}, {'a': 'str', 'v': 'class'}, {'a': 'int', 'v': '1'}, {'t': 'tuple', 'v': []}):
+            for a in kids:
+                out.append({'t': 'dict', 'k': [k], 'v': [a]})
+        return out
+    l1 = level(leaves)
+    for p in leaves + l1:
+        yield p
+    # depth 2: containers over a thinned set of depth-1 values
+    thin = leaves[:3] + leaves[6:] + l1[::7]
+    for p in level(thin):
+        yield p
+
+
+def _gen_exhaustive_codec():
+    g = CC.Gen(None)
+    for p in _exhaustive_codec():
+        if p.get('t') == 'fset' and len(g_distinct(p['v'])) != len(p['v']):
+            continue
+        c = {'op': 'codec', 'v': p, '_tags': ['exhaustive_codec']}
+        yield c
+
+
+def g_distinct(ps):
+    return CC.Gen(None).distinct(ps)
+
+
 def generate(rng, tier):
     q = tier == 'quick'
-    yield from _gen_codec(rng, 700 if q else 12000)
-    yield from _gen_blt_rt(rng, 500 if q else 8000)
-    yield from _gen_blt_text(rng, 700 if q else 12000)
-    yield from _gen_stv_rt(rng, 400 if q else 6000)
-    yield from _gen_stv_text(rng, 500 if q else 8000)
-    try:
-        import props.c19_classes     # noqa
-    except ImportError:
-        return
-    yield from _gen_class(rng, 260 if q else 4000, 40 if q else 400)
+    yield from _gen_codec(rng, 3000 if q else 40000)
+    yield from _gen_blt_rt(rng, 2500 if q else 30000)
+    yield from _gen_blt_text(rng, 3000 if q else 40000)
+    yield from _gen_stv_rt(rng, 2000 if q else 25000)
+    yield from _gen_stv_text(rng, 2000 if q else 25000)
+    yield from _gen_class(rng, 1000 if q else 12000, 120 if q else 1500)
+    if not q:
+        yield from _exhaustive_blt()
+        yield from _gen_exhaustive_codec()
 
 
 TECHNIQUE = 'Lean 4 proofs about a model of the dict codec and of the BLT writer/parser + differential correspondence with votelib + round-trip oracle over all classes carrying to_dict'
